@@ -739,6 +739,8 @@ def _judge_tr(ep, case, cs, seqs, wants, got):
                 cls = "accepted-instead-of-rejected"
         elif all(g == f for f, g in zip(full, got)) and ts and is_:
             cls = "terminal-stop-kept-although-trim_stop=True"
+        elif any(g != w for w, g in zip(wants, got)) and all(g == w or (g.rstrip("-") == w[:-1] and not w.endswith("*")) for w, g in zip(wants, got)):
+            cls = "terminal-sense-codon-trimmed"  # e.g. the stop set of another genetic code was used for trimming
         elif any(len(s) // 3 >= 256 for s in seqs) and all(g in _interleaved(w, [cs[0]]) or g == w for w, g in zip(wants, got)):
             cls = "wide-index-interleaved"
     if rejected and isinstance(got, dict):
